@@ -71,8 +71,14 @@ func runC19RoundTrip(c C19RoundTripCase) vrt.Verdict {
 			single = true
 		}
 	}
+	// one word list is handed to every encoder in turn, as a caller that derives
+	// several names (env, flag, file key) from the same decoded identifier does
+	shared := append(caseconversion.DecodedIdentifier{}, c.Words...)
 	for _, s := range c19Schemes {
-		enc := s.enc(append(caseconversion.DecodedIdentifier{}, c.Words...))
+		enc := s.enc(shared)
+		if !reflect.DeepEqual([]string(shared), c.Words) {
+			return vrt.Violationf("%s: the encoder modified the word list it was given: %q became %q (the next name derived from the same words is wrong)", s.name, c.Words, []string(shared))
+		}
 		got, err := s.dec(enc)
 		if err != nil {
 			return vrt.Violationf("%s: decode(encode(%q)=%q) failed: %v", s.name, c.Words, enc, err)
@@ -94,7 +100,7 @@ func runC19RoundTrip(c C19RoundTripCase) vrt.Verdict {
 func TestC19RoundTrip(t *testing.T) {
 	vrt.Check(t, vrt.Prop[C19RoundTripCase]{
 		ID: "C19", Name: "roundtrip", NoJournal: true,
-		Rule: "word lists of 1..7 words over [a-z][a-z0-9]{0,9} drawn by rapid; for each of the six matched schemes decode(encode(ws)) must equal ws; " +
+		Rule: "word lists of 1..7 words over [a-z][a-z0-9]{0,9} drawn by rapid; for each of the six matched schemes decode(encode(ws)) must equal ws, the same list being handed to every encoder in turn (encoders are functions of their argument and leave it alone); " +
 			"non-trivial = at least two words and some word contains a digit or is a single letter; distinct = distinct word lists",
 		Assumptions: []string{"the empty word list is excluded (an identifier has at least one word; every decoder rejects the empty string)"},
 		Gen:         genC19RoundTrip, Run: runC19RoundTrip,
